@@ -69,7 +69,7 @@ def cases(tier, seed):
             elif r < 0.85:
                 cvk = ["sliding", "expanding"][int(rng.integers(0, 2))]
                 ops.append(["update_predict", int(rng.integers(4, 9)), cvk, int(rng.integers(1, 4)), int(rng.integers(1, 3)), bool(rng.random() < 0.6),
-                            bool(rng.random() < 0.5)])
+                            bool(rng.random() < 0.5), [None, None, [0, 1], [-1, 1, 2], [-1, 0]][int(rng.integers(0, 5))]])
             else:
                 ops.append(["ups", int(rng.integers(1, 4)), bool(rng.random() < 0.5)])
         yield {"spec": spec, "fh": fh, "fh_in": ["fit", "predict", "never"][int(rng.integers(0, 3))], "n0": int(rng.integers(zoo.min_length(spec) + 6, zoo.min_length(spec) + 24)),
@@ -259,19 +259,27 @@ def run_case(case, ctx):
                       "forecast is not labelled from the current cutoff", got=[int(v) for v in p.index], cutoff=cutoff, after_update_predict=desync)
             check_state("after predict #%d" % k)
         else:  # update_predict
-            _, size, cvk, step, wl, sww, up = op
+            _, size, cvk, step, wl, sww, up = op[:7]
+            fh_ins = op[7] if len(op) > 7 else None
             # state left behind by an earlier update_predict: evaluated data stay in the remembered series while the cutoff was
             # restored, so a refit inside this run trains on (and moves the cutoff to) data ahead of the window (known finding)
             ahead = max(mem) > cutoff
             pre = "stale-memory-ahead-of-cutoff:" if ahead else ""
             if spec[0] in ("grid", "rand"):
                 up = False
+            # a cv horizon reaching back to observed time points (in-sample steps): only forecasters that implement in-sample prediction
+            fh_outer = fh
+            if fh_ins and spec[0] in ("naive", "poly") and spec[1].get("strategy", "last") in ("last", "mean") and spec[1].get("sp", 1) == 1 and not need_fit and fh_in != "fit":
+                fh = fh_ins
+                sww = True
+                wl = max(wl, 2)
             seg_t = list(range(nxt, nxt + size))
             seg = pd.Series([vals[t] for t in seg_t], index=pd.RangeIndex(seg_t[0], seg_t[-1] + 1))
             hmax = max(fh)
             if wl + hmax > size:
                 wl = max(1, size - hmax)
             if wl + hmax > size:
+                fh = fh_outer
                 continue
             if cvk == "sliding":
                 step = min(step, wl)     # windows that leave gaps would make the remembered series gapped (outside "data arrive in time order" without holes)
@@ -305,6 +313,7 @@ def run_case(case, ctx):
             ctx.check("update_predict.cutoff-restored", f.cutoff == c_before == cutoff, pre + "update_predict:cutoff-not-restored:" + spec[0],
                       "update_predict changed the forecaster's own cutoff", before=c_before, after=f.cutoff)
             if failed or not ref_preds:
+                fh = fh_outer
                 continue
             if len(fh) == 1:
                 exp = pd.concat(ref_preds)
@@ -339,6 +348,7 @@ def run_case(case, ctx):
                           "memory:after-update_predict:" + spec[0], "remembered series after update_predict is not the union of what was given",
                           missing=sorted(set(exp) - set(got))[:5], extra=sorted(set(got) - set(exp))[:5])
             desync = True   # the moving-cutoff run advanced nested members; only the outer cutoff is restored
+            fh = fh_outer
     ctx.event(spec=zoo.describe(spec), fh=fh, fh_in=fh_in, ops=[o[0] for o in case["ops"]], final_cutoff=cutoff, remembered=len(mem))
     ctx.tag("top:" + spec[0])
     for m in ("refit-equivalence", "params-frozen", "forecast-from-new-cutoff", "update_predict.equivalence", "update_predict.labels",
